@@ -59,8 +59,8 @@ def run(F, chk):
                     producers.append(d)
                 elif d[2] == "assign" and d[3]["k"] == "use" and op_local(d[3]["a"]) is not None:
                     work.append(op_local(d[3]["a"]))
-                elif d[2] == "partial":
-                    continue
+                elif d[2] in ("partial", "mutarg"):
+                    continue   # element writes / the vector handed to the algorithm as &mut are not producers
                 else:
                     bad.append("assigned by a non-call")
         for d in producers:
@@ -102,6 +102,7 @@ def run(F, chk):
         ra.ok("%s|reads status+retry" % co.path, co.where(), "can_open tests status and the retry policy")
     else:
         ra.violation("%s|reads status+retry" % co.path, co.where(), "Backend::can_open no longer tests status and retry_policy.can_try()")
+    exhaustive_probe_rule(F, chk)
     # ---------------- R-C12-b -----------------------------------------------
     rb = chk.rule("R-C12-b", "T5", "sticky lookup honours can_open; cascade ordered by emptiness", floor=3)
     fs = BL + "::find_sticky"
@@ -227,3 +228,29 @@ def run(F, chk):
             rd.ok(key, b.where(bi), "rebuild skipped only on the `nothing removed` (is_empty) edge")
         else:
             rd.violation(key, b.where(bi), "a path mutates BackendList.backends and returns without rebuilding the load-balancing structure")
+
+
+def exhaustive_probe_rule(F, chk):
+    """R-C12-g: affinity lookups must be exhaustive over the candidates: Maglev's keyed probe walks the whole
+    permutation table (range end = the table size, uncapped), otherwise a key can miss every eligible backend
+    although one exists and falls through to the stateful round-robin tail (one key, several backends)."""
+    r = chk.rule("R-C12-g", "T12", "the keyed Maglev probe covers the whole table", floor=1)
+    p = "<sozu_lib::load_balancing::Maglev as sozu_lib::load_balancing::LoadBalancingAlgorithm>::next_available_backend"
+    if not r.require(F.has(p), "Maglev::next_available_backend not found"):
+        return
+    b = F.body(p)
+    r.fn(p)
+    n = 0
+    for bi, si, s in b.stmts():
+        rv = s.get("rv")
+        if rv and rv["k"] == "agg" and rv.get("adt") == "core::ops::range::Range":
+            n += 1
+            sl = guards.slice_of_operand(b, rv["ops"][1])
+            size_like = any(f in ("size", "table") for _, f in sl["fields"])
+            capped = any(c.endswith("::min") or c.endswith("::clamp") for c in sl["callees"]) or \
+                any(str(c)[0].isdigit() for c in sl["consts"] if c)
+            key = "%s|probe range#%d" % (p, n)
+            if size_like and not capped:
+                r.ok(key, b.where(bi, si), "range end derives from the table size only")
+            else:
+                r.violation(key, b.where(bi, si), "the keyed probe no longer walks the whole table (its end is %s): a key whose first slots belong to ineligible backends falls through to the stateful fallback and alternates between backends" % ("capped" if capped else "not the table size"))
